@@ -80,12 +80,15 @@ def run(ctx):
             recs = abigen.gen_pool(ctx)
         # 3. programs: every package in debug, every 6th (quick: the first) also in release; return-data scripts alongside
         pkgs = abigen.c09_packages(recs, "ca", per_pkg=36)
+        # cases placed around the capacity of the encoder's buffer (package of their own; quick: also in release)
+        bpk = abigen.c09_packages(abigen.boundary_recs(ctx.quick, ctx.seed), "cb", per_pkg=36)
         rel = [dict(p, id=p["id"].replace("ca", "cr"), profile="release") for p in (pkgs[:1] if ctx.quick else pkgs[::6])]
         rjobs = ret_jobs(ctx, recs)
         ctx.build_vh("vh-exec")
         ctx.build_vh("vh-config")
         f_ret = ex.submit(ret_observations, ctx, rjobs)
-        trace, failures = abigen.run_and_collect(ctx, pkgs + rel, procs=8)
+        brel = [dict(p, id=p["id"].replace("cb", "cq"), profile="release") for p in bpk]
+        trace, failures = abigen.run_and_collect(ctx, pkgs + rel + bpk + brel, procs=8)
         t2, f2 = f_ret.result()
         trace += t2
         failures += f2
@@ -115,7 +118,7 @@ def run(ctx):
     return ctx.finish("model_checking", {
         "traces_validated_against_impl": validated,
         "type_trees_in_pool": len(recs), "type_trees_by_depth": depth, "observations": kinds,
-        "packages": len(pkgs), "packages_also_release": len(rel), "return_data_scripts": len(rjobs), "build_or_run_failures": len(failures),
+        "buffer_boundary_cases": sum(len(p["items"]) for p in bpk), "packages": len(pkgs), "packages_also_release": len(rel), "return_data_scripts": len(rjobs), "build_or_run_failures": len(failures),
         "pool": {"tlc_seed": 9, "slice": ("VERIF_SEED mod 16 = %d of the depth<=1 trees + named nestings" % (ctx.seed % 16)) if ctx.quick else "all"},
         "constants": {"model_cfgs": cfgs}, "binding_selftest": selftest,
         "samples": [{k: sample[k] for k in ("id", "t", "v", "logs", "out")}] if sample else [],
